@@ -293,6 +293,21 @@ func check(args []string) int {
 				continue
 			}
 			os2, err := eng.VerifyFunc(f, ct)
+			if err != nil && *prop == "C13" {
+				// the functional clauses no longer match the code (a renamed variable, a removed loop): the lock
+				// discipline does not depend on them - generate its obligations from the object declarations and
+				// the helper/closure structure alone, so that a real race is reported by its own obligation
+				eng.Strip = true
+				os3, err2 := eng.VerifyFunc(f, eng.Stripped(ct))
+				eng.Strip = false
+				if err2 != nil && os.Getenv("GOVC_DEBUG") != "" {
+					fmt.Println("DEBUG stripped:", err2)
+				}
+				if err2 == nil {
+					fmt.Printf("NOTE: %s: functional clauses no longer match the code (%s); lock-discipline obligations generated without them\n", key, err.Error())
+					os2, err = os3, nil
+				}
+			}
 			if err != nil {
 				engineErrs = append(engineErrs, engErr{err.Error(), ct.Props, key, p})
 			}
